@@ -169,3 +169,67 @@ class Check:
         for l in lines:
             print(l)
         return 1 if viol else 0
+
+
+class _Collector:
+    """Stand-in for Check used to evaluate another property's rules as *premises* (nothing is written or printed)."""
+
+    def __init__(self):
+        self.obs = []
+        self.analysed = {}
+        self.trusted, self.assumptions, self.decided, self.not_decided = [], [], [], []
+        self.explanation = ""
+        self.exhaustive = False
+        self.tier = "quick"
+
+    def ob(self, rule, site, instance, ok, detail="", witness=None, facts=None, nontrivial=True):
+        self.obs.append(dict(rule=rule, site=site, instance=instance, ok=ok, detail=detail, witness=witness, key="%s : %s : %s" % (rule, site, instance)))
+        return ok is True
+
+    def floor(self, what, got, minimum):
+        self.ob("floor", what, ">=%d" % minimum, got >= minimum, "analysed %d, floor %d" % (got, minimum))
+
+    def control(self, rule, fired, detail=""):
+        pass
+
+
+_PREMISE_CACHE = {}
+
+
+def premises(module_name, facts):
+    """All obligations of another rule module, evaluated on the same facts (cached per process)."""
+    import importlib
+
+    k = (module_name, id(facts))
+    if _PREMISE_CACHE.get(k, 0) is None:
+        return None  # being evaluated further up the stack (mutual premises): the outer evaluation reports it
+    if k not in _PREMISE_CACHE:
+        _PREMISE_CACHE[k] = None
+        col = _Collector()
+        try:
+            importlib.import_module("vlib.rules." + module_name).run(col, facts, "quick")
+        except Exception as e:  # fail closed
+            col.ob(module_name.upper() + ".evaluation", "checker", "rules could be evaluated", None, "%s: %s" % (type(e).__name__, e))
+        _PREMISE_CACHE[k] = col.obs
+    return _PREMISE_CACHE[k]
+
+
+def require(c, facts, module_name, rule, site, instance, select, why, known=None):
+    """One obligation of the current check that holds iff the selected obligations of another property's rules hold.
+    `select(ob)` picks them; at least one must be selected (else undecided). Known findings of the other property are not
+    re-reported here (they are that property's finding), unless they are selected explicitly by key in `known`."""
+    import json, os
+
+    allobs = premises(module_name, facts)
+    if allobs is None:
+        return
+    obs = [o for o in allobs if select(o)]
+    kf = set()
+    try:
+        kf = {f["key"] for f in json.load(open(os.path.join(os.path.dirname(os.path.dirname(os.path.abspath(__file__))), "known_findings.json"))).get("known", [])}
+    except Exception:
+        pass
+    bad = [o for o in obs if o["ok"] is not True and o["key"] not in kf]
+    ok = (not bad) if obs else None
+    det = "%s — %d obligation(s) of %s taken as premise%s" % (why, len(obs), module_name.upper(), "" if not bad else "; NOT holding: " + "; ".join("%s (%s)" % (o["key"], (o["detail"] or "")[:120]) for o in bad[:3]))
+    c.ob(rule, site, instance, ok, det, witness=(bad[0].get("witness") if bad else None))
